@@ -14,9 +14,11 @@ RULE = ("symbol arrays of length 1..2e4 (quick) / 1e5 (thorough), 1..4 component
         '; fixed families: wide rANS states (raw scheme running with >= 17 precision bits), the 2^14 table-entry '
         'boundary alphabet, thorough: the automatic mode on 2^18 distinct symbols; model-only rans_oracle lines '
         'sample the five oracle facts of create_complete on the binary64 oracle')
-THEOREM_BACKED = ("rans_roundtrip, table_roundtrip, create_sound (any oracle), raw_roundtrip, tagged_roundtrip, "
-                  "symbols_roundtrip (every oracle, scheme, level), symbols_roundtrip_float, create_complete (+ sharpness "
-                  "witness), precision_suffices(_table), symbols_failure_characterised, scheme_choice_irrelevant")
+THEOREM_BACKED = ('rans_roundtrip, table_roundtrip, create_sound (any oracle), raw_roundtrip, tagged_roundtrip, '
+                  'symbols_roundtrip (every oracle, scheme, level), symbols_roundtrip_float, create_complete (+ sharpness '
+                  'witness), precision_suffices(_table), symbols_failure_characterised, scheme_choice_irrelevant; '
+                  'source_ransUnclampedPrecision_is_model / source_ransPrecision_is_model / source_msb_is_log2 (the C++ '
+                  "functions, translated from clang's AST on every run, are the model's)")
 EXPLANATION = ("full proof for every oracle instance; the Float instance of the model reproduces the C++ bytes; the "
                "ignored result of RAnsSymbolEncoder::Create is proved to be `true` for every oracle with five explicit "
                "properties (monotone, contractive rescale; estimate exact to +1; est 0 = 0; est T <= P), which the exact "
